@@ -12,6 +12,9 @@ analysis.  Actions:
   ("ssync", stream)       cudaStreamSynchronize + 'Stream Sync' record on the stream
   ("dsync",)              cudaDeviceSynchronize + 'Context Sync' record (stream -1)
   ("step", k)             open a ProfilerStep#k annotation (closed by ("end",))
+  ("erecord", stream)     cudaEventRecord: an event that completes when the work launched so far on the stream has ended
+  ("swait", stream)       cudaStreamWaitEvent + 'Stream Wait Event' record: later work on the stream waits for the last event
+  ("esync",)              cudaEventSynchronize + 'Event Sync' record (stream -1): the host waits for the last event
   ("anno", name)          open a user annotation nested inside an operator (closed by ("end",))
 """
 from __future__ import annotations
@@ -33,6 +36,7 @@ def run(program: Sequence[Sequence[Any]], prof: Dict[str, Any]) -> List[Dict[str
     stream_end: Dict[int, int] = {}
     corr = 100
     nk = 0
+    last_event = None
     for a in program:
         kind = a[0]
         if kind in ("op", "step", "anno"):
@@ -57,7 +61,8 @@ def run(program: Sequence[Sequence[Any]], prof: Dict[str, Any]) -> List[Dict[str
             ks = max(t + lat, stream_end.get(s, 0))
             if kind == "launch":
                 evs.append(kineto.runtime("cudaLaunchKernel", t, hd, corr))
-                evs.append(kineto.kernel("ncclKernel_AllReduce(x)" if s == 9 else "void kern(float*)", ks, kd, s, corr))
+                kn = prof.get("knames", {}).get(str(s)) or ("ncclKernel_AllReduce(x)" if s == 9 else "void kern(float*)")
+                evs.append(kineto.kernel(kn, ks, kd, s, corr))
             else:
                 evs.append(kineto.runtime("cudaMemcpyAsync", t, hd, corr))
                 evs.append(kineto.memcpy("Memcpy DtoD (Device -> Device)", ks, kd, s, corr, bw=1.0))
@@ -75,6 +80,29 @@ def run(program: Sequence[Sequence[Any]], prof: Dict[str, Any]) -> List[Dict[str
             end = max([t + hd] + list(stream_end.values()))
             evs.append(kineto.runtime("cudaDeviceSynchronize", t, end - t, corr))
             evs.append(kineto.cuda_sync("Context Sync", t, end - t, -1, corr))
+            corr += 1
+            t = end + gap
+        elif kind == "erecord":
+            s = a[1]
+            last_event = dict(corr=corr, stream=s, ready=stream_end.get(s, t))
+            evs.append(kineto.runtime("cudaEventRecord", t, hd, corr))
+            corr += 1
+            t += hd + gap
+        elif kind == "swait":
+            s2 = a[1]
+            assert last_event is not None, "swait before any erecord"
+            stream_end[s2] = max(stream_end.get(s2, 0), last_event["ready"])
+            extra = {"wait_on_stream": last_event["stream"], "wait_on_cuda_event_record_corr_id": last_event["corr"], "wait_on_cuda_event_id": 9}
+            evs.append(kineto.runtime("cudaStreamWaitEvent", t, hd, corr))
+            evs.append(kineto.cuda_sync("Stream Wait Event", t, hd, s2, corr, extra=extra))
+            corr += 1
+            t += hd + gap
+        elif kind == "esync":
+            assert last_event is not None, "esync before any erecord"
+            end = max(t + hd, last_event["ready"])
+            extra = {"wait_on_stream": last_event["stream"], "wait_on_cuda_event_record_corr_id": last_event["corr"], "wait_on_cuda_event_id": 9}
+            evs.append(kineto.runtime("cudaEventSynchronize", t, end - t, corr))
+            evs.append(kineto.cuda_sync("Event Sync", t, end - t, -1, corr, extra=extra))
             corr += 1
             t = end + gap
         else:
@@ -121,3 +149,29 @@ def programs(L: int, with_ops: bool = True):
             seen.add(k)
             res.append(p)
     return res
+
+
+EVENT_ACTIONS = [("launch", 7), ("launch", 9), ("erecord", 7), ("swait", 9), ("esync",), ("ssync", 9)]
+
+
+def event_programs(L: int):
+    """all flat programs of 2..L actions over EVENT_ACTIONS that record an event before waiting on one"""
+    import itertools
+
+    out = []
+    for n in range(2, L + 1):
+        for p in itertools.product(EVENT_ACTIONS, repeat=n):
+            rec = False
+            ok = True
+            uses = False
+            for a in p:
+                if a[0] == "erecord":
+                    rec = True
+                elif a[0] in ("swait", "esync"):
+                    uses = True
+                    if not rec:
+                        ok = False
+                        break
+            if ok and uses:
+                out.append(list(p))
+    return out
